@@ -43,6 +43,8 @@ function cacheRewrittenSourceMap (filename, fileContent) {
 function getFilePathFromName (filename) {
   const filenameParts = filename.split(path.sep)
   filenameParts.pop()
+  // a file in the root folder: its folder is the root, not ''
+  if (filenameParts.length === 1 && filenameParts[0] === '') return path.sep
   return filenameParts.join(path.sep)
 }
 
